@@ -1,0 +1,11 @@
+//go:build verif
+
+package frugal
+
+// Pure re-export for the verification harness (build tag `verif` only).
+
+// VerifAdapterRegister registers a result channel for the context's op id in
+// the registry of an adapter transport (what Request does before sending).
+func VerifAdapterRegister(t FTransport, ctx FContext, resultC chan []byte) error {
+	return t.(*fAdapterTransport).registry.Register(ctx, resultC)
+}
